@@ -123,19 +123,19 @@ var specs = []spec{
 		Rule:        "every track list Start accepts with <= 4 tracks (every position of at most one video track among 0..3 audio tracks, codecs H264/H265/VP9/AV1/AAC/Opus, names/languages set or not, IsDefault on none or on each single audio track) x variant x query string, each driven by a word with regular GOPs, parameter changes on and off key frames and bare key frames, index.m3u8 observed after every write, a third of the configurations also from Directory storage; plus depth-N trees over {0, S/2, S} x {RA, RA+parameter switch, non-RA} for zero-duration segments; expected codec strings, resolutions and frame rates come from an independent formatter and mediacommon's test vectors; distinct = distinct (configuration, final playlists)",
 		Assumptions: e1Assumptions},
 	{ID: "C01", Pkg: ".", Level: "exploration", Procs: 2,
-		Rule:        "words over a finite write alphabet (timing family: delta in {0, one frame, S-1 tick, S, 1.4 S} x {random access, not}; parameter family: {one frame, S} x {RA with / without inline parameter sets, non-RA, parameter switch on RA / on non-RA}; interleaving family: all tracks x 2 deltas x 2 kinds, 1- and 2-AU audio writes, 1- and 3-packet Opus writes whose packets last 20/10/40 ms; audio family; reorder family: H264 with picture-order-count reordering, {one frame, S} x {IDR, P, P written ahead of a B, that B} + IDR at S-1 tick + parameter switch, the written decode time being the one mediacommon's DTS extractor derives from the written PTS/POC sequence) enumerated exhaustively as depth-N trees (from the initial state, after a regular preamble that fills the window, from negative start times) and as all periodic words of period <= 2 (3) run for 12 (16) x SegmentCount writes, on a configuration grid (variant x track set incl. audio-before-video x codecs x RAM/disk x SegmentCount); after every write everything the muxer advertises is fetched through Handle, decoded with mediacommon and compared with a reference model of the written stream; distinct = distinct (configuration, final playlists, emitted-unit counts)",
+		Rule:        "words over a finite write alphabet (timing family: delta in {0, one frame, S-1 tick, S, 1.4 S} x {random access, not}; parameter family: {one frame, S} x {RA with / without inline parameter sets, non-RA, parameter switch on RA / on non-RA}; interleaving family: all tracks x 2 deltas x 2 kinds, 1- and 2-AU audio writes, 1- and 3-packet Opus writes whose packets last 20/10/40 ms; audio family; reorder family: H264 with picture-order-count reordering, {one frame, S} x {IDR, P, P written ahead of a B, that B} + IDR at S-1 tick + parameter switch, the written decode time being the one mediacommon's DTS extractor derives from the written PTS/POC sequence) enumerated exhaustively as depth-N trees (from the initial state, after a regular preamble that fills the window, from negative start times) and as all periodic words of period <= 2 (3) run for 12 (16) x SegmentCount writes, on a configuration grid (variant x track set incl. audio-before-video x codecs x RAM/disk x SegmentCount x SegmentMinDuration {0.25, 0.5, 1, 2 s} x PartMinDuration {100, 200 ms}), plus audio-only MPEG-TS periodic words of 430 writes (a cut needs 100 writes); after every write everything the muxer advertises is fetched through Handle, decoded with mediacommon and compared with a reference model of the written stream; distinct = distinct (configuration, final playlists, emitted-unit counts)",
 		Assumptions: e1Assumptions},
 	{ID: "C02", Pkg: ".", Level: "exploration", Procs: 2,
-		Rule:        "words over a finite write alphabet (timing family: delta in {0, one frame, S-1 tick, S, 1.4 S} x {random access, not}; parameter family: {one frame, S} x {RA with / without inline parameter sets, non-RA, parameter switch on RA / on non-RA}; interleaving family: all tracks x 2 deltas x 2 kinds, 1- and 2-AU audio writes, 1- and 3-packet Opus writes whose packets last 20/10/40 ms; audio family; reorder family: H264 with picture-order-count reordering, {one frame, S} x {IDR, P, P written ahead of a B, that B} + IDR at S-1 tick + parameter switch, the written decode time being the one mediacommon's DTS extractor derives from the written PTS/POC sequence) enumerated exhaustively as depth-N trees (from the initial state, after a regular preamble that fills the window, from negative start times) and as all periodic words of period <= 2 (3) run for 12 (16) x SegmentCount writes, on a configuration grid (variant x track set incl. audio-before-video x codecs x RAM/disk x SegmentCount); after every write everything the muxer advertises is fetched through Handle, decoded with mediacommon and compared with a reference model of the written stream; distinct = distinct (configuration, final playlists, emitted-unit counts)",
+		Rule:        "words over a finite write alphabet (timing family: delta in {0, one frame, S-1 tick, S, 1.4 S} x {random access, not}; parameter family: {one frame, S} x {RA with / without inline parameter sets, non-RA, parameter switch on RA / on non-RA}; interleaving family: all tracks x 2 deltas x 2 kinds, 1- and 2-AU audio writes, 1- and 3-packet Opus writes whose packets last 20/10/40 ms; audio family; reorder family: H264 with picture-order-count reordering, {one frame, S} x {IDR, P, P written ahead of a B, that B} + IDR at S-1 tick + parameter switch, the written decode time being the one mediacommon's DTS extractor derives from the written PTS/POC sequence) enumerated exhaustively as depth-N trees (from the initial state, after a regular preamble that fills the window, from negative start times) and as all periodic words of period <= 2 (3) run for 12 (16) x SegmentCount writes, on a configuration grid (variant x track set incl. audio-before-video x codecs x RAM/disk x SegmentCount x SegmentMinDuration {0.25, 0.5, 1, 2 s} x PartMinDuration {100, 200 ms}), plus audio-only MPEG-TS periodic words of 430 writes (a cut needs 100 writes); after every write everything the muxer advertises is fetched through Handle, decoded with mediacommon and compared with a reference model of the written stream; distinct = distinct (configuration, final playlists, emitted-unit counts)",
 		Assumptions: e1Assumptions},
 	{ID: "C03", Pkg: ".", Level: "exploration", Procs: 2,
-		Rule:        "words over a finite write alphabet (timing family: delta in {0, one frame, S-1 tick, S, 1.4 S} x {random access, not}; parameter family: {one frame, S} x {RA with / without inline parameter sets, non-RA, parameter switch on RA / on non-RA}; interleaving family: all tracks x 2 deltas x 2 kinds, 1- and 2-AU audio writes, 1- and 3-packet Opus writes whose packets last 20/10/40 ms; audio family; reorder family: H264 with picture-order-count reordering, {one frame, S} x {IDR, P, P written ahead of a B, that B} + IDR at S-1 tick + parameter switch, the written decode time being the one mediacommon's DTS extractor derives from the written PTS/POC sequence) enumerated exhaustively as depth-N trees (from the initial state, after a regular preamble that fills the window, from negative start times) and as all periodic words of period <= 2 (3) run for 12 (16) x SegmentCount writes, on a configuration grid (variant x track set incl. audio-before-video x codecs x RAM/disk x SegmentCount); after every write everything the muxer advertises is fetched through Handle, decoded with mediacommon and compared with a reference model of the written stream; distinct = distinct (configuration, final playlists, emitted-unit counts)",
+		Rule:        "words over a finite write alphabet (timing family: delta in {0, one frame, S-1 tick, S, 1.4 S} x {random access, not}; parameter family: {one frame, S} x {RA with / without inline parameter sets, non-RA, parameter switch on RA / on non-RA}; interleaving family: all tracks x 2 deltas x 2 kinds, 1- and 2-AU audio writes, 1- and 3-packet Opus writes whose packets last 20/10/40 ms; audio family; reorder family: H264 with picture-order-count reordering, {one frame, S} x {IDR, P, P written ahead of a B, that B} + IDR at S-1 tick + parameter switch, the written decode time being the one mediacommon's DTS extractor derives from the written PTS/POC sequence) enumerated exhaustively as depth-N trees (from the initial state, after a regular preamble that fills the window, from negative start times) and as all periodic words of period <= 2 (3) run for 12 (16) x SegmentCount writes, on a configuration grid (variant x track set incl. audio-before-video x codecs x RAM/disk x SegmentCount x SegmentMinDuration {0.25, 0.5, 1, 2 s} x PartMinDuration {100, 200 ms}), plus audio-only MPEG-TS periodic words of 430 writes (a cut needs 100 writes); after every write everything the muxer advertises is fetched through Handle, decoded with mediacommon and compared with a reference model of the written stream; distinct = distinct (configuration, final playlists, emitted-unit counts)",
 		Assumptions: e1Assumptions},
 	{ID: "C04", Pkg: ".", Level: "exploration", Procs: 2,
-		Rule:        "words over a finite write alphabet (timing family: delta in {0, one frame, S-1 tick, S, 1.4 S} x {random access, not}; parameter family: {one frame, S} x {RA with / without inline parameter sets, non-RA, parameter switch on RA / on non-RA}; interleaving family: all tracks x 2 deltas x 2 kinds, 1- and 2-AU audio writes, 1- and 3-packet Opus writes whose packets last 20/10/40 ms; audio family; reorder family: H264 with picture-order-count reordering, {one frame, S} x {IDR, P, P written ahead of a B, that B} + IDR at S-1 tick + parameter switch, the written decode time being the one mediacommon's DTS extractor derives from the written PTS/POC sequence) enumerated exhaustively as depth-N trees (from the initial state, after a regular preamble that fills the window, from negative start times) and as all periodic words of period <= 2 (3) run for 12 (16) x SegmentCount writes, on a configuration grid (variant x track set incl. audio-before-video x codecs x RAM/disk x SegmentCount); after every write everything the muxer advertises is fetched through Handle, decoded with mediacommon and compared with a reference model of the written stream; distinct = distinct (configuration, final playlists, emitted-unit counts)",
+		Rule:        "words over a finite write alphabet (timing family: delta in {0, one frame, S-1 tick, S, 1.4 S} x {random access, not}; parameter family: {one frame, S} x {RA with / without inline parameter sets, non-RA, parameter switch on RA / on non-RA}; interleaving family: all tracks x 2 deltas x 2 kinds, 1- and 2-AU audio writes, 1- and 3-packet Opus writes whose packets last 20/10/40 ms; audio family; reorder family: H264 with picture-order-count reordering, {one frame, S} x {IDR, P, P written ahead of a B, that B} + IDR at S-1 tick + parameter switch, the written decode time being the one mediacommon's DTS extractor derives from the written PTS/POC sequence) enumerated exhaustively as depth-N trees (from the initial state, after a regular preamble that fills the window, from negative start times) and as all periodic words of period <= 2 (3) run for 12 (16) x SegmentCount writes, on a configuration grid (variant x track set incl. audio-before-video x codecs x RAM/disk x SegmentCount x SegmentMinDuration {0.25, 0.5, 1, 2 s} x PartMinDuration {100, 200 ms}), plus audio-only MPEG-TS periodic words of 430 writes (a cut needs 100 writes); after every write everything the muxer advertises is fetched through Handle, decoded with mediacommon and compared with a reference model of the written stream; distinct = distinct (configuration, final playlists, emitted-unit counts)",
 		Assumptions: e1Assumptions},
 	{ID: "C05", Pkg: ".", Level: "exploration", Procs: 1,
-		Rule:        "words over a finite write alphabet (timing family: delta in {0, one frame, S-1 tick, S, 1.4 S} x {random access, not}; parameter family: {one frame, S} x {RA with / without inline parameter sets, non-RA, parameter switch on RA / on non-RA}; interleaving family: all tracks x 2 deltas x 2 kinds, 1- and 2-AU audio writes, 1- and 3-packet Opus writes whose packets last 20/10/40 ms; audio family; reorder family: H264 with picture-order-count reordering, {one frame, S} x {IDR, P, P written ahead of a B, that B} + IDR at S-1 tick + parameter switch, the written decode time being the one mediacommon's DTS extractor derives from the written PTS/POC sequence) enumerated exhaustively as depth-N trees (from the initial state, after a regular preamble that fills the window, from negative start times) and as all periodic words of period <= 2 (3) run for 12 (16) x SegmentCount writes, on a configuration grid (variant x track set incl. audio-before-video x codecs x RAM/disk x SegmentCount); after every write everything the muxer advertises is fetched through Handle, decoded with mediacommon and compared with a reference model of the written stream; distinct = distinct (configuration, final playlists, emitted-unit counts)",
+		Rule:        "words over a finite write alphabet (timing family: delta in {0, one frame, S-1 tick, S, 1.4 S} x {random access, not}; parameter family: {one frame, S} x {RA with / without inline parameter sets, non-RA, parameter switch on RA / on non-RA}; interleaving family: all tracks x 2 deltas x 2 kinds, 1- and 2-AU audio writes, 1- and 3-packet Opus writes whose packets last 20/10/40 ms; audio family; reorder family: H264 with picture-order-count reordering, {one frame, S} x {IDR, P, P written ahead of a B, that B} + IDR at S-1 tick + parameter switch, the written decode time being the one mediacommon's DTS extractor derives from the written PTS/POC sequence) enumerated exhaustively as depth-N trees (from the initial state, after a regular preamble that fills the window, from negative start times) and as all periodic words of period <= 2 (3) run for 12 (16) x SegmentCount writes, on a configuration grid (variant x track set incl. audio-before-video x codecs x RAM/disk x SegmentCount x SegmentMinDuration {0.25, 0.5, 1, 2 s} x PartMinDuration {100, 200 ms}), plus audio-only MPEG-TS periodic words of 430 writes (a cut needs 100 writes); after every write everything the muxer advertises is fetched through Handle, decoded with mediacommon and compared with a reference model of the written stream; distinct = distinct (configuration, final playlists, emitted-unit counts)",
 		Assumptions: e1Assumptions},
 
 	{ID: "C06", Pkg: ".", Level: "model_checking", Instrument: true, RacePass: false, Procs: 1,
